@@ -434,6 +434,17 @@ Definition f1_order_class (P : program) (q : query) : bool :=
                      end) cls
    || existsb hyp_open (goal_hyps (q_body q))).
 
+(** The negation form of the in-query F7 class ([Contract.f7n_conj], finding F7n), for queries
+    with unknowns: the goal contains a [not] and, under some candidate instantiation of the
+    unknowns, two of its atoms reach two different members of one coinductive cycle (the
+    negative literal then meets a table that only has a conditional answer; SLG answers
+    Ambiguous or not depending on the order in which the tables were created). *)
+Definition f7n_order_query (fuel : nat) (P : program) (q : query) (cands : list (list ty)) : bool :=
+  has_not (q_body q) &&
+  existsb (fun th =>
+    pairs_later (two_cycle_members fuel (pclauses P) (pcoind P))
+                (filter groundb (map (subst (listth (rev th))) (goal_atoms (q_body q))))) cands.
+
 (** The class is a property of the clause *set* up to order: swapping two clauses does not
     change membership (so the check may evaluate it on either of the two programs). *)
 Lemma inst_related_comm : forall h1 h2, inst_related h1 h2 = inst_related h2 h1.
